@@ -38,7 +38,7 @@ ASSUMPTIONS = [
 ]
 SETTINGS: Dict[str, Dict[str, Any]] = {
     "quick": {"cases": 1500, "cli_cases": 48, "budget_s": 50, "minimums": {"corpus_runs": 100, "runs_with_to_date": 1500, "inverted_to_date_runs_succeeded": 100, "must_fail_observed": 150, "sell_all_observed": 300, "multi_lot_events": 1000, "cli_runs": 6}},
-    "thorough": {"cases": 80000, "cli_cases": 300, "budget_s": 420, "minimums": {"corpus_runs": 100, "must_fail_observed": 8000, "sell_all_observed": 15000, "multi_lot_events": 50000, "cli_runs": 150}},
+    "thorough": {"cases": 80000, "cli_cases": 300, "budget_s": 420, "minimums": {"corpus_runs": 100, "must_fail_observed": 4800, "sell_all_observed": 9000, "multi_lot_events": 30000, "cli_runs": 90}},
 }
 
 
